@@ -56,7 +56,11 @@ CLAUSES = {
     "… after any history of fetch calls on the shared class-level cache (fresh or not, any response sequence)":
         "proved (fetch_history_sound, fetch_cache_invariant, fetch_failure_leaves_cache) over the state machine fetchStep / fetchRun",
     "legacy form needs ≥ 1 input (N04d: zero-input legacy bytes are a segwit marker)": "proved (zero_input_legacy_ambiguous)",
-    "malformed streams (truncated, garbled, out-of-range fields)": "correspondence-only (model = code on every generated stream); tx_parse_short proved",
+    "arbitrary byte strings: model totality, parse soundness, truncation":
+        "proved (script_parse_fuel_independent, script_parse_opcodes, script_parse_raw, parsed_script_fixpoint, "
+        "parsed_script_not_fixpoint, parsers_leave_suffix, witness_parse_sound, tx_parse_sound, tx_truncation, "
+        "serialization_prefix_free, truncated_locktime_accepted, tx_parse_short); which streams are REFUSED is "
+        "correspondence-only (model = code on every generated truncated / garbled stream)",
 }
 TRUSTED = ["hash256 is a parameter of every theorem; the driver instantiates it with Buidl.Model.Hash.SHA256 "
            "(checked against hashlib by harness/hash_selftest.py)",
@@ -324,6 +328,33 @@ def p_fetch_history(c):
     return True, "ok", "ok"
 
 
+def p_parse_sound(c):
+    """parse soundness on ANY stream the real parser accepts (tx_parse_sound): the unread rest is a suffix of the input,
+    and a returned transaction without an empty / oversized data element (and not the zero-input legacy form)
+    serialises to bytes that parse back to the same fields and the same id"""
+    import buidl.tx as TX
+    b = unx(c["b"])
+    s = io.BytesIO(b)
+    try:
+        t = TX.Tx.parse(s)
+    except Exception:
+        return True, REJECT, REJECT
+    rest = s.read()
+    if not b.endswith(rest):
+        return False, xb(rest), "a suffix of the input"
+    scripts = [i.script_sig for i in t.tx_ins] + [o.script_pubkey for o in t.tx_outs]
+    reenc = all(sc.raw is not None or all(isinstance(x, int) or 0 < len(x) <= 520 for x in sc.commands) for sc in scripts)
+    if not reenc or (not t.segwit and not t.tx_ins):
+        return True, "not re-encodable", "not re-encodable"
+    e = t.serialize()
+    tail = b"\x01\x02\x03"
+    s2 = io.BytesIO(e + tail)
+    t2 = TX.Tx.parse(s2)
+    got = [T.f_tx(t2), xb(s2.read()), t2.id(), xb(t2.serialize())]
+    want = [T.f_tx(t), xb(tail), t.id(), xb(e)]
+    return got == want, got, want
+
+
 def p_parse_serialize(c):
     """bytes that are the serialisation of a transaction built through the API (canonical by construction)
     re-serialise to themselves"""
@@ -334,7 +365,7 @@ def p_parse_serialize(c):
 
 
 PREDICATES = {"tx_roundtrip": p_tx_roundtrip, "script_roundtrip": p_script_roundtrip, "witness_roundtrip": p_witness_roundtrip,
-              "txid": p_txid, "fetch_sound": p_fetch, "parse_serialize": p_parse_serialize, "fetch_history": p_fetch_history}
+              "txid": p_txid, "fetch_sound": p_fetch, "parse_serialize": p_parse_serialize, "fetch_history": p_fetch_history, "parse_sound": p_parse_sound}
 
 
 def eval_pred(kind, case):
@@ -552,6 +583,7 @@ def run(ctx):
     streams += [("marker", b"\x01\x00\x00\x00\x00\x02" + b"\x00" * 10), ("short", b"\x01\x00\x00\x00"), ("short", b""), ("short", b"\x01\x00\x00\x00\x00")]
     for name, raw in streams:
         lines.append(("tx_parse:" + name.split(":")[0].split("#")[0], "tx_parse " + xb(raw)))
+        preds.append(("parse_sound", {"b": xb(raw), "why": name}))
     for name, raw in streams[:nfix]:
         # component parsers on the fixtures: first input / first output located by parsing with the library is
         # avoided; instead feed the bytes after the version (+ marker) to the component parsers
